@@ -249,12 +249,16 @@ class Options:
         #         kwargs = context.options
 
         options = self
+        declared_options = None
         if context:
             if not self.override and context.options.override:
                 options = context.options
                 # override
+                # (without what the library laid over them for its own scope, e.g. the trial pass of a union)
+                declared_options = context.declared_options
         return RuntimeContext(
-            context=context, cls=cls, options=options, force_error=force_error
+            context=context, cls=cls, options=options, force_error=force_error,
+            declared_options=declared_options,
         )
 
     # def clone(self):
@@ -340,6 +344,7 @@ class RuntimeContext:
         force_error: bool = False,
         error_hooks: dict = None,
         options: Options = None,
+        declared_options: Options = None,
     ):
 
         self.context = context
@@ -364,6 +369,9 @@ class RuntimeContext:
         # self.cls_routes = []
         self.error_hooks = error_hooks
         self.options: Options = options or Options()
+        # the options as the user gave them: what the library lays over them in enter() is for that scope only,
+        # an instance made there does not keep it
+        self.declared_options: Options = declared_options or self.options
         self.force_error = force_error
 
         # if options:
@@ -410,6 +418,7 @@ class RuntimeContext:
             force_error=self.force_error,
             options=merged,
             error_hooks=self.error_hooks,
+            declared_options=self.declared_options,
         )
 
     def __enter__(self):
